@@ -77,10 +77,21 @@ pub fn norm_path(p: &str) -> &str {
 }
 
 pub const SCHEMES: [&str; 4] = ["http", "https", "ipp", "ipps"];
-pub const HOSTS: [&str; 9] = ["printer.example.com", "localhost", "192.168.1.20", "[::1]", "[2001:db8::1:631]", "h", "PRINTER.Example.COM", "a-b.c_d", "[fe80::1]"];
+pub const HOSTS: [&str; 10] = ["printer.example.com", "localhost", "192.168.1.20", "[::1]", "[2001:db8::1:631]", "h", "PRINTER.Example.COM", "a-b.c_d", "[fe80::1]", "printer.local."];
 pub const PORTS: [Option<&str>; 8] = [None, Some("1"), Some("80"), Some("443"), Some("631"), Some("65535"), Some("8631"), Some("0631")];
 pub const USERINFO: [Option<&str>; 8] = [None, Some("user"), Some("user:TAINTpw"), Some("us%40er:TAINT%3Apw"), Some("TAINTu:"), Some(":TAINTp"), Some("adm:TAINTp@ss"), Some("TAINTa@b@c:x")];
-pub const PATHS: [&str; 8] = ["", "/", "/a/b", "/printers/My%20Printer", "/ipp/print", "/a//b/", "/%7Euser/x.y-z_~", "/very/long/path/segment/segment/segment/segment/segment/segment/segment/segment/segment/end"];
+pub const PATHS: [&str; 9] = ["", "/", "/a/b", "/printers/My%20Printer", "/ipp/print", "/a//b/", "/%7Euser/x.y-z_~", "/very/long/path/segment/segment/segment/segment/segment/segment/segment/segment/segment/end", "//double/leading"];
+
+/// a path of about `n` octets
+pub fn long_path(n: usize) -> String {
+    let mut s = String::new();
+    let mut i = 0;
+    while s.len() < n {
+        s.push_str(&format!("/seg{i:04}"));
+        i += 1;
+    }
+    s
+}
 pub const QUERIES: [Option<&str>; 6] = [None, Some(""), Some("TAINTq=1"), Some("u=TAINTa@b:c"), Some("x=1&y=TAINT"), Some("TAINT/with/slash")];
 
 /// the exhaustive component grid
@@ -90,7 +101,7 @@ pub fn grid() -> Vec<Parts> {
         for h in HOSTS {
             for p in PORTS {
                 for u in USERINFO {
-                    for pa in PATHS {
+                    for pa in PATHS.iter().copied() {
                         for q in QUERIES {
                             v.push(Parts {
                                 scheme: s.to_string(),
@@ -130,7 +141,11 @@ pub fn random(rng: &mut Rng) -> Parts {
         2 => word(rng, b"ABCdef-123", 1, 12),
         _ => {
             let n = rng.range(1, 4);
-            (0..n).map(|_| word(rng, AL, 1, 10)).collect::<Vec<_>>().join(".")
+            let mut h = (0..n).map(|_| word(rng, AL, 1, 10)).collect::<Vec<_>>().join(".");
+            if rng.chance(1, 8) {
+                h.push('.'); // fully qualified name with the root label
+            }
+            h
         }
     };
     let port = match rng.below(5) {
@@ -159,9 +174,10 @@ pub fn random(rng: &mut Rng) -> Parts {
             Some(s)
         }
     };
-    let path = match rng.below(5) {
-        0 => String::new(),
-        1 => "/".to_string(),
+    let path = match rng.below(40) {
+        0..=7 => String::new(),
+        8..=15 => "/".to_string(),
+        16 => long_path(*rng.pick(&[990usize, 1010, 1024, 1100, 2048, 5000, 20_000])),
         _ => {
             let n = rng.range(1, 5);
             let mut s = String::new();
